@@ -205,6 +205,17 @@ func (s *Scanner) getData(bo *retry.Backoffer) error {
 		zap.Bool("reverse", s.reverse),
 		zap.Uint64("txnStartTS", s.startTS()))
 	sender := locate.NewRegionRequestSender(s.snapshot.store.GetRegionCache(), s.snapshot.store.GetTiKVClient(), s.snapshot.store.GetOracle())
+	// Do not send a scan request for an empty range (inverted bounds given by the caller, or the last batch ended
+	// exactly at the bound): for a reverse scan its lower bound may lie outside of the region located by the upper bound.
+	rangeEnd := s.endKey
+	if s.reverse {
+		rangeEnd = s.nextEndKey
+	}
+	if len(s.nextStartKey) > 0 && len(rangeEnd) > 0 && kv.CmpKey(s.nextStartKey, rangeEnd) >= 0 {
+		s.cache, s.idx = nil, 0
+		s.eof = true
+		return nil
+	}
 	var reqEndKey, reqStartKey []byte
 	var loc *locate.KeyLocation
 	var resolvingRecordToken *int
